@@ -398,6 +398,37 @@ pub fn suite(which: &str, prop: &str, _tier: &str, _seed: u64) -> Report {
             }
         }
     }
+    if (all || prop == "C03") && which == "aag" {
+        // ascii rendering of an ordered circuit (Writer::write_ordered_aig): parsing it back gives the same circuit as the conversion Aig::from
+        for (k, v) in binary_values().iter().enumerate() {
+            let r = catch_unwind(AssertUnwindSafe(|| to_bytes(|w| flussab_aiger::ascii::Writer::<u16>::new(w).write_ordered_aig(v))));
+            rep.inputs += 1;
+            rep.nontrivial += 1;
+            let bytes = match r {
+                Ok(b) => b,
+                Err(p) => {
+                    rep.fail("C03 parse(write_ordered(v)) == v (ascii rendering of an ordered circuit)", format!("{:?}", v).chars().take(300).collect(), vec![st("c03o"), k.to_string()], format!("the writer panics: {}", panic_msg(p)));
+                    continue;
+                }
+            };
+            let want = format!("{:?}", Aig::<u16>::from(v.clone()));
+            let got = catch_unwind(AssertUnwindSafe(|| {
+                let src: &[u8] = &bytes;
+                match flussab_aiger::ascii::Parser::<u16>::from_read(src, flussab_aiger::ascii::Config::default()) {
+                    Ok(p) => match p.parse() {
+                        Ok(a) => format!("{:?}", a),
+                        Err(e) => format!("error: {}", e),
+                    },
+                    Err(e) => format!("error: {}", e),
+                }
+            }))
+            .unwrap_or_else(|p| format!("panic: {}", panic_msg(p)));
+            rep.runs += 1;
+            if got != want {
+                rep.fail("C03 parse(write_ordered(v)) == v (ascii rendering of an ordered circuit)", format!("{:?}", v).chars().take(300).collect(), vec![st("c03o"), k.to_string()], format!("written as {:?}; expected {}; got {}", show(&bytes), want, got).chars().take(1400).collect());
+            }
+        }
+    }
     if (all || prop == "C06") && which == "aag" {
         for (di, d) in aag_docs().iter().enumerate() {
             let positions = d.clone().numbers().len();
